@@ -69,7 +69,9 @@ func DetectAndReadInput(input string) (*InputResult, error) {
 		}, nil
 	}
 
-	if strings.Contains(input, string(filepath.Separator)) || strings.HasSuffix(strings.ToLower(input), ".sql") {
+	// (a text that starts like a statement is SQL even though it contains a
+	// slash: a division, a block comment, a path inside a string)
+	if !LooksLikeSQL(input) && (strings.Contains(input, string(filepath.Separator)) || strings.HasSuffix(strings.ToLower(input), ".sql")) {
 		return nil, fmt.Errorf("invalid file path: %w", statErr)
 	}
 
